@@ -259,9 +259,17 @@ class Program:
 
         for node in m.tree.body:
             self._index_stmt(m, node, add_func)
-        # assignments anywhere at module level (inside try etc.)
+        # function-local imports (`from .utils import from_dense`, `import symmray as sr`)
+        # are made visible module-wide unless they would shadow a module level name
+        top = dict(m.imports)
         for node in ast.walk(m.tree):
-            pass
+            if isinstance(node, (ast.Import, ast.ImportFrom)):
+                tmp = ModuleInfo.__new__(ModuleInfo)
+                tmp.name, tmp.path, tmp.imports = m.name, m.path, {}
+                self._index_import(tmp, node)
+                for k, v in tmp.imports.items():
+                    if k not in top and k not in m.functions and k not in m.classes and k not in m.assigns:
+                        m.imports.setdefault(k, v)
 
     def _index_stmt(self, m, node, add_func):
         if isinstance(node, (ast.FunctionDef, ast.AsyncFunctionDef)):
